@@ -265,6 +265,7 @@ def lex_tie_cases(rng, noise, n):
 
 
 MSG_IDS = [('unclosed string literal', 'unclosed_string'), ('unclosed char literal', 'unclosed_char'),
+           ('invalid numeric constant', 'invalid_number'),
            ('unclosed block comment', 'unclosed_comment'), ('invalid token', 'invalid_token'),
            ('invalid hex escape sequence', 'invalid_hex_escape'), ('invalid UTF-8 sequence', 'invalid_utf8')]
 
@@ -1016,19 +1017,20 @@ def promoted_range(lo, hi):
     return 0, (1 << 64) - 1, True
 
 
-ALLOW_U64_CROSSING = False
+ALLOW_U64_CROSSING = True     # /repo fix 2292ae8: the emptiness test of a case range is made in the promoted controlling type
 
 
 def gen_switch_fn(rng, name):
-    ty, lo, hi = CTL_TYPES[rng.randrange(len(CTL_TYPES))]
+    ty, lo, hi = CTL_TYPES[rng.randrange(len(CTL_TYPES))] if rng.random() < 0.6 else CTL_TYPES[rng.randrange(7, 11)]   # 64-bit types more often
     plo, phi, uns = promoted_range(lo, hi)
     vals = [v for v in boundary_values() if plo <= v <= phi]
     rng.shuffle(vals)
     want = rng.randrange(3, 10)
     taken = []          # disjoint closed intervals
     arms = []
-    spans = [0, 1, 2, 126, 127, 128, 255, 256, 32767, 65535, 65536, (1 << 31) - 2, (1 << 31) - 1, 1 << 31, (1 << 32) - 1, 1 << 32,
-             (1 << 63) - 1, (1 << 64) - 1]
+    spans = [0, 1, 2, 126, 127, 128, 255, 256, 32767, 65535, 65536, (1 << 31) - 2, (1 << 31) - 1, 1 << 31, (1 << 31) + 1, (1 << 32) - 2,
+             (1 << 32) - 1, 1 << 32, (1 << 32) + 1, (1 << 63) - 1, 1 << 63, (1 << 64) - 2, (1 << 64) - 1,
+             (1 << 31) - 1, 1 << 31, (1 << 32) - 1, 1 << 32]
     for v in vals:
         if len(arms) >= want:
             break
@@ -1122,7 +1124,7 @@ def gen_struct_off(rng, name):
     for i, w in enumerate(widths):
         s += f'  p->b{i} = q->b{i} + 1; p->b{i}++; p->b{i} |= 1;\n'
     s += f'  return p->m1 + p->m2 + p->b0 + (long)&p->m2 + (long)sizeof(*p) + (long)&(({name}_t *)0)->tail + (long)(p + 1) + (long)&p[{rng.choice([1, 2, 15, 16, 255])}];\n}}\n'
-    if rng.random() < 0.5:
+    if o2 <= 0x10000 and rng.random() < 0.7:       # an initialized object costs one Initializer node per array element (see C13-huge-designator-index)
         s += f'static {name}_t {name}_g = {{ .m1 = 1, .m2 = 2, .b0 = 1, .tail = 3 }};\nlong {name}_h(void) {{ return {name}({name}_g.m1 ? &{name}_g : 0, &{name}_g); }}\n'
     return s
 
@@ -1144,7 +1146,8 @@ def gen_global_data(rng, name):
     s = f'long {name}_l[] = {{{", ".join(c_lit(v) for v in vals)}}};\n'
     s += f'unsigned long {name}_u[] = {{{", ".join(c_lit(v % (1 << 64), True) for v in vals)}}};\n'
     s += f'int {name}_i[] = {{{", ".join(c_lit(v % (1 << 31)) for v in vals)}}};\n'
-    s += f'char {name}_c[{rng.choice([1, 127, 128, 255, 256, 65535, 65536, 0x1000000])}] = {{1}};\n'
+    s += f'char {name}_c[{rng.choice([1, 127, 128, 255, 256, 65535, 65536, 0x100000])}] = {{1}};\n'
+    s += f'char {name}_z[{rng.choice([0x1000000, 0x7fffffff, 0x10000000])}];\n'
     s += f'long *{name}_p = &{name}_l[{len(vals) - 1}]; char *{name}_q = {name}_c + {rng.choice([0, 1, 127, 128, 255])};\n'
     s += f'_Alignas({rng.choice([16, 64, 4096, 65536])}) long {name}_al = {c_lit(vals[0])};\n'
     return s
@@ -1157,7 +1160,7 @@ def gen_boundary(rng, n):
         parts = []
         fam = i % 5
         if fam == 0:
-            parts = [gen_switch_fn(rng, f'sw{j}') for j in range(rng.randrange(1, 4))]
+            parts = [gen_switch_fn(rng, f'sw{j}') for j in range(rng.randrange(2, 6))]
         elif fam == 1:
             parts = [gen_imm_fn(rng, f'im{j}') for j in range(rng.randrange(1, 3))]
         elif fam == 2:
@@ -1169,4 +1172,69 @@ def gen_boundary(rng, n):
                      gen_global_data(rng, 'gd')]
         src = '\n'.join(parts)
         out.append({'gen': 'valid-boundary', 'family': 'valid', 'data': src.encode(), 'opts': [], 'expect': 'ok'})
+    return out
+
+
+# ---------------------------------------------------------------------------------------- (h) literal texts for the reader tie
+
+LIT_BODY = [b'a', b'Z', b'0', b' ', b'%', b'\\n', b'\\t', b'\\\\', b'\\"', b"\\'", b'\\0', b'\\7', b'\\77', b'\\777', b'\\7777', b'\\8',
+            b'\\x41', b'\\x0', b'\\xfffffffff', b'\\x', b'\\xg', b'\\e', b'\\q', b'\\?', b'\xc3\xa9', b'\xe2\x82\xac', b'\xf0\x9f\x98\x80',
+            b'\xc3', b'\xe2\x82', b'\xf0\x9f', b'\x80', b'\xbf', b'\xc0\x80', b'\xff', b'\xfe', b'\xed\xa0\x80', b'\xf4\x90\x80\x80',
+            b'\x01', b'\x7f', b'/*', b'//', b"'", b'"']
+LIT_NUM = [b'0', b'1', b'08', b'0x', b'0x1f', b'0b', b'0b102', b'1e', b'1e+', b'1e+5', b'1.', b'.5', b'1.5f', b'1.5fl', b'0x1p', b'0x1p-3',
+           b'1u', b'1ul', b'1lu', b'1llu', b'1lul', b'1uu', b'18446744073709551615', b'18446744073709551616', b'0xffffffffffffffffu',
+           b'1..2', b'1e5e5', b'12ab', b'1_000', b'0x1.8p1L', b'1.0e+', b'9' * 40, b'.e1', b'.1e', b'1.e+1f']
+
+
+def gen_literal_texts(rng, n):
+    """texts that start with a string, character or numeric literal (well-formed or not); no NUL, CR, newline, `\\u`, `#`"""
+    out = [b'"\\', b"'\\", b'"\\x', b"'\\x", b'"', b"'", b"''", b'""', b'L"', b"u'", b'u8"', b'U"\xf0\x9f"', b"'\\", b'"\\7', b'"a\\']
+    while len(out) < n:
+        r = rng.random()
+        if r < 0.25:
+            out.append(rng.choice(LIT_NUM))
+            continue
+        q = b'"' if rng.random() < 0.6 else b"'"
+        pre = rng.choice([b'', b'', b'u8', b'u', b'L', b'U']) if q == b'"' else rng.choice([b'', b'', b'u', b'L', b'U'])
+        body = b''.join(rng.choice(LIT_BODY) for _ in range(rng.randrange(0, 6)))
+        t = pre + q + body + (q if rng.random() < 0.8 else b'')
+        if b'\\u' in t or b'\\U' in t:
+            continue
+        out.append(t)
+    return out
+
+
+# ---------------------------------------------------------------------------------------- (i) long histories of the macro table
+
+def gen_macro_histories(rng, n):
+    """long #define / #undef histories over DISTINCT names (each name is defined, used and undefined again): the macro table sees
+    hundreds to thousands of insertions and deletions, far more than its initial capacity; valid input, must be accepted"""
+    out = []
+    for i in range(n):
+        k = rng.choice([40, 200, 400, 700, 1200, 2500]) if i else 900
+        lines = []
+        live = []
+        total = 0
+        for j in range(k):
+            nm = 'M%d_%d' % (i, j) if rng.random() < 0.8 else 'm%dx%dy' % (j, i)
+            r = rng.random()
+            if r < 0.15:
+                lines.append('#define %s(a, b) ((a) + (b) + %d)' % (nm, j))
+                lines.append('int u%d = %s(1, 2);' % (j, nm))
+            else:
+                lines.append('#define %s %d' % (nm, j))
+                if r < 0.4:
+                    lines.append('int u%d = %s;' % (j, nm))
+            live.append((nm, r < 0.15))
+            total += 1
+            # keep only a few names live: the others are removed again (tombstones)
+            while len(live) > rng.choice([0, 1, 3, 8]):
+                v = live.pop(rng.randrange(len(live)))
+                lines.append('#undef %s' % v[0])
+            if r > 0.97 and live and not live[0][1]:
+                lines.append('#ifdef %s\nint w%d = %s;\n#endif' % (live[0][0], j, live[0][0]))
+        lines.append('#ifdef M%d_0\n#error still defined\n#endif' % i)
+        lines.append('int main(void) { return 0; }')
+        src = '\n'.join(lines) + '\n'
+        out.append({'gen': 'macro-history', 'family': 'pp:macro-history', 'data': src.encode(), 'opts': [], 'expect': 'ok'})
     return out
